@@ -69,11 +69,11 @@ entry('TlsHandshakeCertificateRequest', 'RFC 5246 7.4.4 CertificateRequest (supp
     S('TlsClientCertificateTypeVector'), {'opt': [S('TlsSignatureAndHashAlgorithmVector')]}, S('TlsDistinguishedNameVector')]))
 # ---- SSL 2.0 (draft-hickman-netscape-ssl-00) ------------------------------------------------------------------
 entry('SslErrorMessage', 'SSL 2.0 5.7 ERROR: char MSG-ERROR (in the record); char ERROR-CODE-MSB; char ERROR-CODE-LSB', [{'u': 2}])
-entry('SslHandshakeClientHello', 'SSL 2.0 5.5 CLIENT-HELLO', [
-    S('TlsProtocolVersion'), {'len': 2, 'of': ['cipher_specs']}, {'len': 2, 'of': ['session_id']}, {'len': 2, 'of': ['challenge']},
+entry('SslHandshakeClientHello', 'SSL 2.0 5.5 CLIENT-HELLO (CLIENT-VERSION is a value of the message: an SSLv2 format hello may announce 3.x)', [
+    dict(S('TlsProtocolVersion'), attr='version'), {'len': 2, 'of': ['cipher_specs']}, {'len': 2, 'of': ['session_id']}, {'len': 2, 'of': ['challenge']},
     {'array': {'u': 3}, 'name': 'cipher_specs'}, {'raw': '*', 'name': 'session_id'}, {'raw': '*', 'name': 'challenge'}])
 entry('SslHandshakeServerHello', 'SSL 2.0 5.6 SERVER-HELLO', [
-    {'u': 1, 'name': 'session_id_hit'}, {'u': 1, 'name': 'certificate_type'}, S('TlsProtocolVersion'),
+    {'u': 1, 'name': 'session_id_hit', 'attr': 'session_id_hit'}, {'u': 1, 'name': 'certificate_type'}, dict(S('TlsProtocolVersion'), attr='version'),
     {'len': 2, 'of': ['certificate']}, {'len': 2, 'of': ['cipher_specs']}, {'len': 2, 'of': ['connection_id']},
     {'raw': '*', 'name': 'certificate'}, {'array': {'u': 3}, 'name': 'cipher_specs'}, {'raw': '*', 'name': 'connection_id'}])
 # ---- extensions ------------------------------------------------------------------------------------------------
